@@ -8,7 +8,7 @@
    The code modelled is the code with fixes/C14_*.patch ([gfixed]); the code without each guard is refuted below. *)
 From Coq Require Import List ZArith Bool.
 From K.Model Require Import C14.
-From K.Proof Require C14 C14_main C14_frame C14_refute.
+From K.Proof Require C14 C14_main C14_frame C14_sound C14_refute.
 Import ListNotations.
 Local Open Scope Z_scope.
 
@@ -109,6 +109,15 @@ Theorem C14_pieces_only_by_valid_payload : forall t s q m a,
                      d_have (a_st a) = zset (d_have s) i true).
 Proof. exact Proof.C14_frame.have_only_by_valid_payload_b. Qed.
 Print Assumptions C14_pieces_only_by_valid_payload.
+
+(* ---- the property in executable form: the oracle the runner evaluates on the implementation's observations
+   holds of the model's own observations, for every torrent (piece length up to the 32 MiB threshold of the
+   driver's allocation meter), every initial piece table, every handshake and every list of messages *)
+Theorem C14_check_sound : forall t have bfull h ms,
+  wf_torrent t = true -> zlen have = t_n t -> t_p t <= big_thr -> wf_hs h = true ->
+  C14_check t have bfull h ms (run_case gfixed t have bfull h ms) = true.
+Proof. exact Proof.C14_sound.check_sound. Qed.
+Print Assumptions C14_check_sound.
 
 (* ---- the code before the fixes: each guard removed on its own breaks the property (witnesses = driver seeds) *)
 Theorem C14_nil_body_refuted :
